@@ -12,11 +12,11 @@ CHECK = {
             "every garbage prefix x sequence of well-formed frames, both modes; "
             "driver histories: every driver-call position x {-EIO,-EPIPE,-EAGAIN,-EINTR} for encode (source and sink) and decode (sink; source -EIO/-EPIPE), the decoder being used on "
             "with the same context and source after the failure (streams: all class strings up to the bound, all pairs of frames with payload <= 2, all triples with payload <= 1); "
-            "source interruptions of the decoder: -EAGAIN/-EINTR at every source-call position, and every two positions (also back to back, all four code combinations), "
+            "source interruptions of the decoder: -EAGAIN/-EINTR/-ENODATA (the source has nothing for now and is refilled) at every source-call position, and every two positions (also back to back, all nine code combinations), "
             "x {rfc1055_context_init + octet drivers, static initialiser + chunk drivers}; "
             "encoder sink answer scripts: every placement of one and of two deviations from 'takes everything' over the first 2n+3 sink calls, deviations "
             "{short write (1 of several), zero-length return to a write of several octets, -EAGAIN, -EINTR, -EIO, -ENODATA (a hard error like -EIO whose code is the encoder's own end-of-payload sentinel)}, octet and chunk sinks, plus a chunk sink that accepts up to the next "
-            "multiple of b octets for b = 1..8 (oracle: a negative result is one of the codes the sink answered in that execution, any of them when it answered several; "
+            "multiple of b octets for b = 1..8 (oracle: a negative result is one of the codes the sink answered in that execution, any of them when it answered several - or, behind a zero-length answer and no hard error, any negative code (giving up); "
             "after an -EIO/-ENODATA answer success is not accepted; success = a complete encoding reached the sink); "
             "runs of answers: at every one of the 2n+3 sink call positions k = 1..8 equal answers in a row {zero = took nothing (also to a call offering a single octet), -EAGAIN, -EINTR}, then everything is taken or -EIO is answered once; "
             "and a sink that takes nothing for ever from that position on (oracle: success = a complete encoding reached the sink; a negative result is a code the sink answered or, behind a zero answer, any negative code (giving up); "
@@ -41,6 +41,10 @@ CHECK = {
         "except after a decode call that returned the -EAGAIN/-EINTR its source answered: that call is an interruption (the failing source call consumed nothing, the stream is the same octet string), "
         "the caller keeps the sink and calls again, and the interrupted call is folded into its successor before the log is judged like a fault-free one "
         "(clause C12/source-interruption-transparent; a decoder that asks the source again by itself instead of returning the code is accepted too)",
+        "in the E-SPACE interruption family a source answer of -ENODATA in mid-stream is an interruption of the same kind: it is what the library's own buffer-backed sources answer when they are empty for now, the failing call consumed nothing, the source is refilled and the same context decodes on - "
+        "the octets are the same stream ('decoding the encoding returns exactly the payload', 'concatenated encodings decode to the same payload sequence in order', through however many fillings of the source they arrive), "
+        "so the decode call returns -ENODATA unchanged and the folded log is judged like the uninterrupted one (a split between ESC and its second octet included); "
+        "a decoder that latches -ENODATA (repeats it without consuming) is owed nothing behind it; in the other families a driver-answered -ENODATA stays a hard error like -EIO",
         "'source or sink errors' = any negative answer of a driver; the statement names no code, so the alphabet is every errno value plus negative values outside the errno table "
         "(an implementation keeping the code in a narrower type, mapping unknown codes, or taking a driver's -ENODATA/-EILSEQ for its own sentinel does not return it unchanged)",
         "after a hard source error (any code but -EAGAIN/-EINTR; -ENODATA in the middle of a stream and -EILSEQ included) and after any sink error during decode the statement promises no more than behind a corrupted prefix: the code comes back unchanged, "
@@ -51,11 +55,11 @@ CHECK = {
         "source drivers answer 1 octet per call or a negative code (what a 0 from a single-octet source_get_octet call means to rfc1055 is not decided by the statement and is left out). "
         "A sink may answer zero = 'took nothing' (the endpoint contract: 'will cause the system to retry'): in the deviation scripts only to a write of several octets, in the run family to every call, k = 1..8 times in a row or for ever. "
         "The statement's sentences about that: whenever encode reports success a complete encoding reached the sink (an octet or delimiter the sink did not take must not be counted as sent); "
-        "an encoder that gives up behind a zero answer with a negative code of its own is accepted in the run family (the statement names no code and promises no number of offers), "
+        "an encoder that gives up behind a zero answer (no hard error answered) with a negative code of its own is accepted in the run family and in the deviation scripts alike (the statement names no code and promises no number of offers), "
         "in front of a sink that takes nothing for ever it may also offer until the driver call budget ends the run; "
         "-EAGAIN/-EINTR from a sink during encode may be returned unchanged or retried (sink_put_chunk retries, sink_put_octet returns)",
         "'sink errors are returned unchanged' with several sink errors in one encode execution (scripts with two deviations): returning any code the sink really answered satisfies the sentence "
-        "(an encoder may still try to close the frame after the first error and meet the second); a negative code the sink never answered, or success after an -EIO answer, is a violation",
+        "(an encoder may still try to close the frame after the first error and meet the second); a negative code the sink never answered (unless the sink answered zero and no hard error: giving up), or success after an -EIO answer, is a violation",
         "an interrupted or failed *encode* is not resumed (the statement does not say how); whenever encode reports success under a sink script, what reached the sink must be a complete encoding",
         "resynchronisation oracle: classic = frame behind any delimiter; start-of-frame = all non-empty frames of a well-formed run but the first non-empty one; "
         "empty deliveries never count against the decoder; delivery of empty frames is demanded only from the initial context",
@@ -84,6 +88,7 @@ CHECK = {
                 "encode-sink-interrupted", "encode-source-interrupted", "decode-sink-interrupted",
                 "interrupt-at-frame-boundary", "interrupt-inside-frame", "interrupt-inside-escape",
                 "interrupt-unframed", "interrupt-at-end-of-stream", "interrupt-twice",
+                "source-refilled", "source-refilled-inside-escape", "source-refilled-twice",
                 "encode-sink-short-write", "encode-sink-zero-write", "encode-sink-interrupt",
                 "encode-sink-hard-error", "encode-sink-two-deviations", "encode-sink-fifo-blocks",
                 "encode-sink-zero-run", "encode-sink-interrupt-run", "encode-sink-dead",
